@@ -618,6 +618,12 @@ func sliceMode(mode string) string {
 	return ""
 }
 
+// isTarget: n is the slice / map handed to Unpack itself (wrapper types): a
+// configuration always exists for it, at least an empty one.
+func (g *pgen) isTarget(n *pnode) bool {
+	return n.parent != nil && n.parent.parent == nil && n.parent.t.topColl
+}
+
 func (g *pgen) slice(n *pnode, ctx pctx) {
 	r := g.r
 	req, nz := n.f.has("required"), n.f.has("nonzero")
@@ -655,6 +661,10 @@ func (g *pgen) slice(n *pnode, ctx pctx) {
 		for i := 0; i < nCfg || i < nPre; i++ {
 			n.kids = append(n.kids, g.elem(n, strconv.Itoa(i), strconv.Itoa(i), i < nCfg, i < nPre))
 		}
+		if g.isTarget(n) {
+			n.inCfg = true
+			return
+		}
 		g.emptyOrNull(n, ctx, nCfg, nPre > 0)
 		return
 	}
@@ -664,7 +674,7 @@ func (g *pgen) slice(n *pnode, ctx pctx) {
 		// (replace: Unpack merges the configured elements into copies of the old ones)
 		nPre = 0
 	}
-	present := nCfg > 0 || ctx.canCfg && !req && r.Intn(2) == 0 // present and empty: `[]`
+	present := nCfg > 0 || ctx.canCfg && !req && r.Intn(2) == 0 || g.isTarget(n) // present and empty: `[]`
 	survive := nPre
 	if mode == "replace" && present {
 		survive = 0
@@ -706,8 +716,8 @@ func (g *pgen) slice(n *pnode, ctx pctx) {
 	if mode != "append" {
 		pres()
 	}
-	if !present {
-		g.emptyOrNull(n, ctx, 0, nPre > 0)
+	if !present && ctx.canCfg && !g.force && !req && r.Intn(8) == 0 {
+		n.inCfg, n.cfgNull = true, true // `x: null` (the empty list was drawn above)
 	}
 }
 
@@ -774,6 +784,10 @@ func (g *pgen) mapNode(n *pnode, ctx pctx) {
 		n.inCfg = n.inCfg || k.inCfg
 		n.inPre = n.inPre || k.inPre
 	}
+	if g.isTarget(n) {
+		n.inCfg = true
+		return
+	}
 	g.emptyOrNull(n, ctx, nCfg, n.inPre)
 }
 
@@ -781,7 +795,7 @@ var globalModes = []string{"append", "prepend", "replace", "replacearr"}
 
 // genPlan draws a plan for the top-level struct.
 func genPlan(r *rand.Rand, top *tnode, force bool) (*pnode, bool) {
-	g := &pgen{r: r, force: force, useVars: r.Intn(5) < 3}
+	g := &pgen{r: r, force: force, useVars: r.Intn(5) < 3 && !top.topColl}
 	n := &pnode{t: top, shape: "field", sshape: "field", inCfg: true, inPre: true}
 	if r.Intn(3) == 0 {
 		n.global = globalModes[r.Intn(len(globalModes))]
